@@ -376,8 +376,8 @@ func prop(s cs.Spec) common.Result {
 				// signature object claims signers that are never verified (and that the leader rotation later reads): it is
 				// judged like any other certificate
 				axiom := s.Kind == "qc" && s.ClaimBlk == 5 && s.ClaimView == 0 && b.QC.Signature() == nil
-				if s.Kind == "tc" && s.ClaimView == 0 {
-					axiom = true // the view-0 timeout certificate is valid by definition
+				if s.Kind == "tc" && s.ClaimView == 0 && b.TC.Signature() == nil {
+					axiom = true // the view-0 timeout certificate every replica starts with (nobody signed it) is valid by definition; one that carries a signature is judged like any other
 				}
 				if !axiom && b.ValidSigners < w.Q {
 					fp := "accepts-without-quorum:" + s.Kind + ":" + whyClass(s, b)
